@@ -163,6 +163,62 @@ def interp : Nat → Com → State → Res
     | some (.bool false) => .ok s
     | _ => .stuck
 
+/-! ## `imp.eval_Sem`: the derivation it builds
+
+`eval_Sem c st` returns a proof term of `Sem c st st'` assembled from the theorems `Sem_Skip`,
+`Sem_Assign`, `Sem_seq`, `Sem_if1`, `Sem_if2`, `Sem_while_skip`, `Sem_while_loop` of library/hoare.json,
+following the evaluation of the program; `Deriv` is that tree, `Deriv.rules` the theorem names in the
+order of a pre-order walk of the proof term. -/
+
+inductive Deriv where
+  | skip
+  | assign
+  | seq (d1 d2 : Deriv)
+  | if1 (d : Deriv)
+  | if2 (d : Deriv)
+  | whileSkip
+  | whileLoop (d1 d2 : Deriv)
+  deriving Repr, Inhabited
+
+def Deriv.rules : Deriv → List String
+  | .skip => ["Sem_Skip"]
+  | .assign => ["Sem_Assign"]
+  | .seq d1 d2 => "Sem_seq" :: (d1.rules ++ d2.rules)
+  | .if1 d => "Sem_if1" :: d.rules
+  | .if2 d => "Sem_if2" :: d.rules
+  | .whileSkip => ["Sem_while_skip"]
+  | .whileLoop d1 d2 => "Sem_while_loop" :: (d1.rules ++ d2.rules)
+
+/-- Fuel-bounded model of `eval_Sem` (`none`: out of fuel, or a guard / assigned expression that does
+not evaluate, where the real function raises). -/
+def evalSem : Nat → Com → State → Option (Deriv × State)
+  | 0, _, _ => none
+  | _ + 1, .skip, s => some (.skip, s)
+  | _ + 1, .assign x e, s => match evalE s e with
+    | some (.int v) => some (.assign, upd s x v)
+    | _ => none
+  | n + 1, .seq c1 c2, s => match evalSem n c1 s with
+    | some (d1, s1) => match evalSem n c2 s1 with
+      | some (d2, s2) => some (.seq d1 d2, s2)
+      | none => none
+    | none => none
+  | n + 1, .cond b c1 c2, s => match evalE s b with
+    | some (.bool true) => match evalSem n c1 s with
+      | some (d, s2) => some (.if1 d, s2)
+      | none => none
+    | some (.bool false) => match evalSem n c2 s with
+      | some (d, s2) => some (.if2 d, s2)
+      | none => none
+    | _ => none
+  | n + 1, .while b inv c, s => match evalE s b with
+    | some (.bool true) => match evalSem n c s with
+      | some (d1, s1) => match evalSem n (.while b inv c) s1 with
+        | some (d2, s2) => some (.whileLoop d1 d2, s2)
+        | none => none
+      | none => none
+    | some (.bool false) => some (.whileSkip, s)
+    | _ => none
+
 /-! ## `compute_wp` and `get_vcs`
 
 `computeWp c pre0 q` is `c.compute_wp(q)` called on a fresh command object whose `pre` list was
